@@ -42,7 +42,9 @@ func WithActivation(ctx StateContextI, name string, before func() error, after f
 	if errors.Is(err, util.ErrNodeNotFound) {
 		return err
 	}
-	if ctx.GetBlock().Round < round {
+	// an unrecorded fork is never active, whatever the block round (the MaxInt64 sentinel alone
+	// would activate it for a block of that round)
+	if errors.Is(err, util.ErrValueNotPresent) || ctx.GetBlock().Round < round {
 		err = before()
 	} else {
 		err = after()
